@@ -47,7 +47,7 @@ READER_STACKS = ["bytesio", "bufreader", "fileobj", "path", "neutral", "rawobj"]
 
 
 def budget(tier):
-    return 160 if tier == "quick" else 6000
+    return 1200 if tier == "quick" else 40000
 
 
 def wall_cap(tier):
@@ -61,6 +61,18 @@ def gen_pool(rng, big):
     for i in range(n):
         name = rng.choice(gen.RECORD_NAMES[:5])
         pool["D%d" % i] = [name, gen.gen_fields(rng, TYPES, 1, 4)]
+    if rng.random() < 0.4:
+        # a second type under the name of D0: same fields in another order, or one more / one fewer field
+        name, fields = pool["D0"]
+        r = rng.random()
+        if r < 0.4 and len(fields) > 1:
+            f2 = list(reversed(fields))
+        elif r < 0.7:
+            f2 = fields + [[rng.choice(["string", "varint"]), "zz"]]
+        else:
+            f2 = [[t, n] for t, n in fields[:-1]] + [["string", fields[-1][1]]]
+        if f2 != fields:
+            pool["D9"] = [name, f2]
     if rng.random() < 0.35:
         # a holder whose child type occurs only nested
         pool["C0"] = ["nested/child", gen.gen_fields(rng, ["string", "varint", "boolean"], 1, 2)]
@@ -86,7 +98,7 @@ def generate(rng, tier, index):
     big = rng.random() < (0.25 if thorough else 0.08)
     pool = gen_pool(rng, big)
     keys = [k for k in sorted(pool) if k != "C0"]
-    mode = rng.choice(["cuts", "cuts", "cuts", "write_faults", "write_faults", "crash", "faultfree"])
+    mode = rng.choice(["cuts", "cuts", "cuts", "write_faults", "write_faults", "write_faults", "crash", "faultfree"])
     layer = "raw"
     if mode == "write_faults":
         stack = rng.choice(["raw", "buf", "buf", "gz", "gzbuf", "path", "pathgz"])
@@ -106,8 +118,9 @@ def generate(rng, tier, index):
     ops = []
     if rng.random() < 0.15:
         ops.append({"op": "flush"})
+    twin = "D9" in pool and rng.random() < 0.7
     for i in range(n_rec):
-        k = rng.choice(keys)
+        k = rng.choice(["D0", "D9"]) if twin and rng.random() < 0.8 else rng.choice(keys)
         ops.append({"op": "write", "desc": k, "values": gen_values(rng, pool, k, big)})
         if flush_every and (i + 1) % flush_every == 0:
             ops.append({"op": rng.choice(["fpflush", "fpflush", "flush"])})
@@ -132,9 +145,9 @@ def generate(rng, tier, index):
         "gz": gzreader,
         "fault_layer": layer,
     }
-    cap = (4096 if not thorough else 65536)
+    cap = (2048 if not thorough else 65536)
     plan = {"config": cfg, "pool": pool, "ops": ops, "mode": mode, "faults": "enumerate", "cap": cap,
-            "max_evals": 1500 if not thorough else 12000, "sample_seed": rng.randrange(0, 1 << 30)}  # fmt: skip
+            "max_evals": 700 if not thorough else 12000, "sample_seed": rng.randrange(0, 1 << 30)}  # fmt: skip
     return plan
 
 
@@ -374,7 +387,10 @@ def read_back(world, data, cfg, reader, delivery, gz, read_error_at=None, tag="r
     """Read ``data`` (device content) through the library.  -> (observations, outcome)"""
     from flow.record import RecordReader, RecordStreamReader
 
-    hp = HandlePlan(delivery=delivery["sizes"] if delivery else None, tail=delivery["tail"] if delivery else "whole", read_error_at=read_error_at)
+    tail = delivery["tail"] if delivery else "whole"
+    if tail != "whole" and len(data) > 3000 * int(tail):
+        tail = -(-len(data) // 3000)  # keep a read below ~3000 raw calls; tiny chunks on big streams add cost, not reach
+    hp = HandlePlan(delivery=delivery["sizes"] if delivery else None, tail=tail, read_error_at=read_error_at)
     got = []
     outcome = "end"
     world.fs.read_buffer_size = cfg["read_buffer_size"]
